@@ -230,7 +230,7 @@ pub const ALPHABET: [char; 11] = ['a', '"', '`', ']', '[', '\'', '\\', ' ', '.',
 pub fn run(ctx: &mut Ctx) {
     let max_len = if ctx.tier_thorough { 5 } else { 4 };
     let nrand = if ctx.tier_thorough { 100000 } else { 10000 };
-    ctx.rule = format!("Iden::prepare on ALL names over the {}-symbol alphabet {:?} up to length {} (exhaustive) x 3 backends + {} random Unicode names (NUL excluded: no engine can represent it in an identifier); then ~25 statement templates covering every identifier position (table, schema, database, column, alias, CTE name and columns, window, ON CONFLICT, RETURNING, lock OF, index / constraint / foreign-key names, type names, enum-cast type) rendered with nasty names and compared token-for-token with the plain-name rendering under an independent reference lexer. Non-trivial = non-empty name; distinct by request.", ALPHABET.len(), ALPHABET, max_len, nrand);
+    ctx.rule = format!("Iden::prepare on ALL names over the {}-symbol alphabet {:?} up to length {} (exhaustive) x 3 backends + {} random Unicode names (NUL excluded: no engine can represent it in an identifier); long names (30 .. 1000 characters, around the engines' 63 / 64 / 128-byte identifier limits, quote characters at the end / throughout / at the start); then ~25 statement templates covering every identifier position (table, schema, database, column, alias, CTE name and columns, window, ON CONFLICT, RETURNING, lock OF, index / constraint / foreign-key names, type names, enum-cast type) rendered with nasty names and compared token-for-token with the plain-name rendering under an independent reference lexer. Non-trivial = non-empty name; distinct by request.", ALPHABET.len(), ALPHABET, max_len, nrand);
     if let Some(rp) = ctx.replay.clone() {
         let i = rp.get("input").cloned().unwrap_or_default();
         let b = match i.get("backend").and_then(|x| x.as_str()) { Some("mysql") => B::Mysql, Some("postgres") => B::Postgres, _ => B::Sqlite };
@@ -246,6 +246,18 @@ pub fn run(ctx: &mut Ctx) {
             for (k, s) in strs.iter().enumerate() {
                 let t = strs[(k * 7 + 3) % strs.len()].clone();
                 check_positions(ctx, b, &[s.clone(), t]);
+            }
+        }
+    }
+    // long names: nothing may be cut, clamped or re-chunked around an engine's identifier limits (63 / 64 / 128 bytes), also
+    // when the escaped form is what crosses the limit
+    for b in B::all() {
+        for len in [30usize, 31, 32, 59, 60, 61, 62, 63, 64, 65, 126, 127, 128, 129, 255, 256, 1000] {
+            for q in ['"', '`', ']', '\'', 'é', 'a'] {
+                let tail = format!("{}{q}", "a".repeat(len - 1));
+                let dense: String = (0..len).map(|i| if i % 2 == 0 { q } else { 'a' }).collect();
+                let head = format!("{q}{}", "a".repeat(len - 1));
+                for name in [tail, dense, head] { check_name(ctx, b, &name); if len <= 129 { check_positions(ctx, b, &[name.clone(), "x".to_string()]); check_positions(ctx, b, &["x".to_string(), name]); } }
             }
         }
     }
